@@ -23,10 +23,15 @@ CLAIMED = {
         "text": "Every corpus, TPC-DS and generated input is analysed in 4 (quick) / 32 (thorough) interpreters with different string-hash seeds, twice each in fresh forks with different accessor programs; all canonical answers must agree. Sampling over inputs and seeds: a seed-dependent choice that needs a rarer hash collision pattern than the sampled seeds produce is missed.",
         "note": "Canonical dump treats the cytoscape export as an unordered collection of elements (positional edge ids dropped) and rewrites subquery_<int>; exceptions compared by type; trusted: sim/canon.py, sim/props/c11.py.",
     },
+    "C03": {
+        "design_ref": "DESIGN.md 4.4",
+        "technique": "history-vs-reference-model simulation: seeded operation histories (rw / drop / rename) applied operation by operation to the real accumulator (holder API and rendered SQL through LineageRunner with statement tap) and to a partial reference model (set of allowed states); reorder / duplicate delivery and hash-seed variation as the only fault dimension",
+        "text": "Seeded sampling of statement histories (length <= 6, 3-4 tables), each prefix compared with a partial reference model that constrains exactly what the statement constrains; order/duplication clause checked by permuted and repeated delivery; every history runs under one of 8 hash seeds. Not the exhaustive enumeration the quantifier mentions (that would be model checking): coverage is reported as distinct histories and model states reached.",
+        "note": "History clause only - there is no I/O, clock or thread in the fold, said plainly in DESIGN.md; RENAME outside the determined zone is checked for weak invariants only; exceptions in the loose zone are not judged; trusted: the model in sim/props/c03.py.",
+    },
 }
 
 PLANNED = {
-    "C03": "claimed in DESIGN.md 4.4; check not built yet in this commit (in progress)",
     "C04": "claimed in DESIGN.md 4.5; check not built yet in this commit (in progress)",
     "C14": "claimed in DESIGN.md 4.6; check not built yet in this commit (in progress)",
     "C17": "claimed in DESIGN.md 4.7; check not built yet in this commit (in progress)",
